@@ -34,7 +34,10 @@ func C08(c *core.Ctx) {
 				var out []fam.Issue
 				out = append(out, w.EnumIssues(fm)...)
 				out = append(out, w.TypIssues(c.Prog.Repo)...)
-				out = append(out, fam.SibIssues(fm)...)
+				if w.Cfg.ExtraImports {
+					// (sibling equality needs both methods: not in the default-mode twin, where only UnmarshalJSON is emitted)
+					out = append(out, fam.SibIssues(fm)...)
+				}
 				return out
 			})
 		}
